@@ -1,3 +1,5 @@
+//go:build !racefree
+
 // C02 — concurrent use of one engine is safe and equals serial use.
 //
 // Stateless model checking of the implementation: 2–3 logical threads run real twig calls on one
@@ -13,8 +15,10 @@ import (
 	"encoding/json"
 	"fmt"
 	"os"
+	"os/exec"
 	"path/filepath"
 	"sort"
+	"strconv"
 	"strings"
 	"unsafe"
 
@@ -24,241 +28,6 @@ import (
 	"verif/lib/twx"
 	"verif/lib/vlib"
 )
-
-type world struct {
-	e *twig.Engine
-}
-
-type call func(w *world) string
-
-type scenario struct {
-	name    string
-	setup   func(mode string) *world
-	threads [][]call
-	modes   []string
-	// maxK caps the preemption bound for this scenario per tier (0 = tier default)
-	quickK, thoroughK int
-}
-
-var tmpDir string
-
-var arrayTemplates = map[string]string{
-	"plain":        "P:{{ x }}{% for i in xs %}{{ i }}{% endfor %}",
-	"leaf":         "L{{ x }}",
-	"inc":          "I[{% include 'leaf' %}|{% include 'leaf' with {'x': 'w'} %}|{% include 'leaf' only %}]",
-	"base":         "<{% block k %}K0{{ x }}{% endblock %}>",
-	"child":        "{% extends 'base' %}{% block k %}C{{ x }}({{ parent() }}){% endblock %}",
-	"lib":          "{% macro m(p) %}[{{ p }}]{% endmacro %}",
-	"use":          "{% import 'lib' as l %}{{ l.m(x) }}{% from 'lib' import m %}{{ m(x) }}",
-	"attr":         "{{ o.A }}{{ o.B }}",
-	"set":          "{% set s = x %}{% for i in xs %}{% set s = s ~ i %}{% endfor %}{{ s }}",
-	"a/main":       "MA[{% include './part' %}]",
-	"a/part":       "a-part",
-	"b/main":       "MB[{% include './part' %}]",
-	"b/part":       "b-part",
-	"a/sub/page":   "{% extends '../base' %}{% block c %}A-{% import './m' as mm %}{{ mm.f(x) }}{% endblock %}",
-	"a/base":       "BA<{% block c %}{% endblock %}>",
-	"a/sub/m":      "{% macro f(p) %}am{{ p }}{% endmacro %}",
-	"b/sub/page":   "{% extends '../base' %}{% block c %}B-{% import './m' as mm %}{{ mm.f(x) }}{% endblock %}",
-	"b/base":       "BB<{% block c %}{% endblock %}>",
-	"b/sub/m":      "{% macro f(p) %}bm{{ p }}{% endmacro %}",
-	"old":          "OLD{{ x }}",
-}
-
-type TS struct{ A, B string }
-
-func ctxFor(x interface{}) map[string]interface{} {
-	return map[string]interface{}{"x": x, "xs": []interface{}{x, x}, "o": TS{"a" + fmt.Sprint(x), "b"}}
-}
-
-func newEngine(mode string, warm []string, fs bool) *world {
-	e := twig.New()
-	if fs {
-		e.RegisterLoader(twig.NewFileSystemLoader([]string{tmpDir}))
-	} else {
-		e.RegisterLoader(twig.NewArrayLoader(arrayTemplates))
-	}
-	switch mode {
-	case "cache-off":
-		e.SetCache(false)
-	case "auto-reload":
-		e.SetAutoReload(true)
-	}
-	for _, n := range warm {
-		e.Load(n)
-	}
-	return &world{e: e}
-}
-
-func rc(name string, x interface{}) call {
-	return func(w *world) string {
-		out, err := w.e.Render(name, ctxFor(x))
-		if err != nil {
-			return "ERR " + firstLine(err.Error())
-		}
-		return out
-	}
-}
-
-func rto(name string, x interface{}) call {
-	return func(w *world) string {
-		var sb strings.Builder
-		if err := w.e.RenderTo(&sb, name, ctxFor(x)); err != nil {
-			return "ERR " + firstLine(err.Error())
-		}
-		return sb.String()
-	}
-}
-
-func ld(name string) call {
-	return func(w *world) string {
-		t, err := w.e.Load(name)
-		if err != nil {
-			return "ERR " + firstLine(err.Error())
-		}
-		out, err := t.Render(ctxFor(7))
-		if err != nil {
-			return "ERR " + firstLine(err.Error())
-		}
-		return "loaded:" + out
-	}
-}
-
-func reg(name, src string) call {
-	return func(w *world) string {
-		if err := w.e.RegisterString(name, src); err != nil {
-			return "ERR " + firstLine(err.Error())
-		}
-		return "registered"
-	}
-}
-
-func parse(src string, x interface{}) call {
-	return func(w *world) string {
-		t, err := w.e.ParseTemplate(src)
-		if err != nil {
-			return "ERR " + firstLine(err.Error())
-		}
-		out, err := t.Render(ctxFor(x))
-		if err != nil {
-			return "ERR " + firstLine(err.Error())
-		}
-		return out
-	}
-}
-
-func firstLine(s string) string {
-	if i := strings.IndexByte(s, '\n'); i >= 0 {
-		s = s[:i]
-	}
-	if len(s) > 80 {
-		s = s[:80]
-	}
-	return s
-}
-
-var allModes = []string{"cache-on", "cache-off", "auto-reload"}
-
-func scenarios() []scenario {
-	warmAll := func(names ...string) func(string) *world {
-		return func(mode string) *world { return newEngine(mode, names, false) }
-	}
-	cold := func(mode string) *world { return newEngine(mode, nil, false) }
-	fsCold := func(mode string) *world { return newEngine(mode, nil, true) }
-	return []scenario{
-		{name: "S1 RegisterString || ParseTemplate (pooled tokenizer hand-off)", setup: cold, modes: []string{"cache-on"},
-			threads: [][]call{{reg("n1", "A:{{ x }}{% if x %}y{% endif %}"), rc("n1", 1)}, {parse("B{% for i in xs %}{{ i }}{% endfor %}", 2)}}},
-		{name: "S1b ParseTemplate || ParseTemplate", setup: cold, modes: []string{"cache-on"},
-			threads: [][]call{{parse("A:{{ x }}{% if x %}y{% endif %}", 1)}, {parse("B{% for i in xs %}{{ i }}{% endfor %}", 2)}}},
-		{name: "S2 relative includes in two directories", setup: warmAll("a/main", "b/main", "a/part", "b/part"), modes: allModes,
-			threads: [][]call{{rc("a/main", 1)}, {rc("b/main", 2)}}},
-		{name: "S2b relative extends+import in two directories", setup: warmAll("a/sub/page", "b/sub/page", "a/base", "b/base", "a/sub/m", "b/sub/m"), modes: []string{"cache-on", "auto-reload"},
-			threads: [][]call{{rc("a/sub/page", 1)}, {rc("b/sub/page", 2)}}, quickK: 2, thoroughK: 3},
-		{name: "S3 first loads of two names through FileSystemLoader", setup: fsCold, modes: allModes,
-			threads: [][]call{{rc("x.twig", 1)}, {rc("y.twig", 2)}}},
-		{name: "S3b first loads of the same name through FileSystemLoader", setup: fsCold, modes: []string{"cache-on", "auto-reload"},
-			threads: [][]call{{rc("x.twig", 1)}, {rc("x.twig", 2)}}},
-		{name: "S3c Load || Load of uncached names (ArrayLoader)", setup: cold, modes: allModes,
-			threads: [][]call{{ld("leaf")}, {ld("plain")}}},
-		{name: "S4a one cached template, plain", setup: warmAll("plain"), modes: allModes,
-			threads: [][]call{{rc("plain", 1)}, {rto("plain", 2)}}},
-		{name: "S4b one cached template, include with/only", setup: warmAll("inc", "leaf"), modes: []string{"cache-on", "auto-reload"},
-			threads: [][]call{{rc("inc", 1)}, {rc("inc", 2)}}, quickK: 2, thoroughK: 3},
-		{name: "S4c one cached template, extends + parent()", setup: warmAll("child", "base"), modes: []string{"cache-on", "cache-off"},
-			threads: [][]call{{rc("child", 1)}, {rc("child", 2)}}, quickK: 2, thoroughK: 3},
-		{name: "S4d one cached template, import + macro", setup: warmAll("use", "lib"), modes: []string{"cache-on"},
-			threads: [][]call{{rc("use", 1)}, {rc("use", 2)}}, quickK: 2, thoroughK: 3},
-		{name: "S4e one cached template, for + set", setup: warmAll("set"), modes: []string{"cache-on"},
-			threads: [][]call{{rc("set", 1)}, {rc("set", 2)}}},
-		{name: "S5 Render(n) || RegisterString(n, new)", setup: func(mode string) *world {
-			w := newEngine(mode, nil, false)
-			w.e.RegisterString("n", "OLD{{ x }}")
-			return w
-		}, modes: []string{"cache-on", "auto-reload"},
-			threads: [][]call{{rc("n", 1)}, {reg("n", "NEW{{ x }}{% if x %}!{% endif %}")}}},
-		{name: "S5b Load(n) || RegisterString(n, new) of a loader template", setup: warmAll("old"), modes: []string{"cache-on", "auto-reload"},
-			threads: [][]call{{ld("old")}, {reg("old", "NEW{{ x }}")}}},
-		{name: "S5c Render || RegisterString of another name", setup: warmAll("plain"), modes: []string{"cache-on"},
-			threads: [][]call{{rc("plain", 1)}, {reg("fresh", "F{{ x }}{% if x %}y{% endif %}"), rc("fresh", 3)}}},
-		{name: "S6 Render || Render || ParseTemplate", setup: warmAll("plain", "leaf"), modes: []string{"cache-on"},
-			threads: [][]call{{rc("plain", 1)}, {rc("leaf", 2)}, {parse("Z{{ x }}", 3)}}, quickK: 2, thoroughK: 3},
-		{name: "S7 struct attribute lookups from two threads", setup: warmAll("attr"), modes: []string{"cache-on"},
-			threads: [][]call{{rc("attr", 1)}, {rc("attr", 2)}}},
-	}
-}
-
-// ---- serial reference: every merge of the threads' call lists, executed one call after another
-
-func merges(lens []int) [][]int {
-	var out [][]int
-	pos := make([]int, len(lens))
-	var rec func(cur []int)
-	rec = func(cur []int) {
-		done := true
-		for t := range lens {
-			if pos[t] < lens[t] {
-				done = false
-				pos[t]++
-				rec(append(cur, t))
-				pos[t]--
-			}
-		}
-		if done {
-			out = append(out, append([]int{}, cur...))
-		}
-	}
-	rec(nil)
-	return out
-}
-
-func guard(c call, w *world) (res string) {
-	defer func() {
-		if r := recover(); r != nil {
-			res = fmt.Sprintf("PANIC: %v", r)
-		}
-	}()
-	return c(w)
-}
-
-func serialResults(sc scenario, mode string) map[string]bool {
-	lens := make([]int, len(sc.threads))
-	for i, th := range sc.threads {
-		lens[i] = len(th)
-	}
-	set := map[string]bool{}
-	for _, order := range merges(lens) {
-		vsync.DropAll()
-		w := sc.setup(mode)
-		res := make([][]string, len(sc.threads))
-		pos := make([]int, len(sc.threads))
-		for _, t := range order {
-			res[t] = append(res[t], guard(sc.threads[t][pos[t]], w))
-			pos[t]++
-		}
-		set[fmt.Sprint(res)] = true
-	}
-	return set
-}
 
 // ---- one execution under the scheduler
 
@@ -465,6 +234,7 @@ func run(t *vlib.T) {
 	os.WriteFile(filepath.Join(tmpDir, "y.twig"), []byte("Y!{{ x }}{% include 'x.twig' %}"), 0o644)
 
 	resolutionCases(t)
+	freeRunningRaceCases(t)
 
 	defK, capExec := 3, int64(400000)
 	if t.Thorough() {
@@ -499,28 +269,28 @@ func run(t *vlib.T) {
 // rendered before on the same engine.
 func resolutionCases(t *vlib.T) {
 	tpl := map[string]string{
-		"layouts/base":  "B[{% block k %}{% include './part' %}{% endblock %}]",
-		"layouts/part":  "layouts-part",
-		"pages/part":    "pages-part",
-		"pages/child":   "{% extends '../layouts/base' %}{% block k %}{% include './part' %}{% endblock %}",
-		"pages/keep":    "{% extends '../layouts/base' %}",
-		"pages/m":       "{% macro mm() %}{% include './part' %}{% endmacro %}",
-		"pages/usem":    "{% import './m' as l %}{{ l.mm() }}",
-		"other/part":    "other-part",
-		"other/use":     "{% import '../pages/m' as l %}{{ l.mm() }}",
-		"other/from":    "{% from '../pages/m' import mm %}{{ mm() }}",
-		"other/inc":     "O[{% include '../pages/inc2' %}]",
-		"pages/inc2":    "{% include './part' %}",
-		"pages/sub/x":   "{% include '../part' %}+{% include './y' %}",
-		"pages/sub/y":   "y",
-		"other/deep":    "{% include '../pages/sub/x' %}",
-		"pages/child2":  "{% extends '../layouts/base' %}{% block k %}C({{ parent() }})[{% include './part' %}]{% endblock %}",
-		"deep/grand":    "{% extends '../pages/child2' %}{% block k %}G({{ parent() }})[{% include './part' %}]{% endblock %}",
-		"deep/part":     "deep-part",
-		"deep/keep":     "{% extends '../pages/child2' %}",
-		"pages/m2":      "{% macro a() %}<{{ _self.b() }}>{% endmacro %}{% macro b() %}{% include './part' %}{% endmacro %}",
-		"other/use2":    "{% import '../pages/m2' as l %}{{ l.a() }}|{% include './part' %}",
-		"other/loopm":   "{% from '../pages/m' import mm %}{% for i in [1, 2] %}{{ mm() }}{% include './part' %};{% endfor %}",
+		"layouts/base": "B[{% block k %}{% include './part' %}{% endblock %}]",
+		"layouts/part": "layouts-part",
+		"pages/part":   "pages-part",
+		"pages/child":  "{% extends '../layouts/base' %}{% block k %}{% include './part' %}{% endblock %}",
+		"pages/keep":   "{% extends '../layouts/base' %}",
+		"pages/m":      "{% macro mm() %}{% include './part' %}{% endmacro %}",
+		"pages/usem":   "{% import './m' as l %}{{ l.mm() }}",
+		"other/part":   "other-part",
+		"other/use":    "{% import '../pages/m' as l %}{{ l.mm() }}",
+		"other/from":   "{% from '../pages/m' import mm %}{{ mm() }}",
+		"other/inc":    "O[{% include '../pages/inc2' %}]",
+		"pages/inc2":   "{% include './part' %}",
+		"pages/sub/x":  "{% include '../part' %}+{% include './y' %}",
+		"pages/sub/y":  "y",
+		"other/deep":   "{% include '../pages/sub/x' %}",
+		"pages/child2": "{% extends '../layouts/base' %}{% block k %}C({{ parent() }})[{% include './part' %}]{% endblock %}",
+		"deep/grand":   "{% extends '../pages/child2' %}{% block k %}G({{ parent() }})[{% include './part' %}]{% endblock %}",
+		"deep/part":    "deep-part",
+		"deep/keep":    "{% extends '../pages/child2' %}",
+		"pages/m2":     "{% macro a() %}<{{ _self.b() }}>{% endmacro %}{% macro b() %}{% include './part' %}{% endmacro %}",
+		"other/use2":   "{% import '../pages/m2' as l %}{{ l.a() }}|{% include './part' %}",
+		"other/loopm":  "{% from '../pages/m' import mm %}{% for i in [1, 2] %}{{ mm() }}{% include './part' %};{% endfor %}",
 	}
 	type rc struct {
 		name, want string
@@ -562,6 +332,42 @@ func resolutionCases(t *vlib.T) {
 					if c.kf != "" && got == c.quirk {
 						o.Known = c.kf
 					}
+				}
+				return o
+			})
+		}
+	}
+}
+
+// freeRunningRaceCases: supplementary sampling pass (labelled as such in the evidence, not part of
+// the coverage claim). The cooperative scheduler only sees hooked operations, so accesses that are
+// not on the watch list are checked by Go's race detector on real goroutines instead.
+func freeRunningRaceCases(t *vlib.T) {
+	bin := os.Getenv("C02_RACE_BIN")
+	if bin == "" {
+		t.Note("free-running -race supplement unavailable (race build failed or not requested)")
+		return
+	}
+	iters := "60"
+	if t.Thorough() {
+		iters = "1500"
+	}
+	for i, sc := range scenarios() {
+		for _, mode := range sc.modes {
+			i, sc, mode := i, sc, mode
+			t.Case(fmt.Sprintf("free-running-race/%s/%s", sc.name, mode), func() *vlib.Outcome {
+				o := &vlib.Outcome{Nontrivial: true, Class: "free-running", Counters: map[string]int64{}}
+				cmd := exec.Command(bin, fmt.Sprint(i), mode, iters)
+				cmd.Env = append(os.Environ(), "GORACE=halt_on_error=1 exitcode=66", "GOMAXPROCS=4")
+				out, err := cmd.CombinedOutput()
+				n, _ := strconv.Atoi(iters)
+				o.Counters["free_running_race_runs"] = int64(n)
+				if err != nil {
+					msg := string(out)
+					if len(msg) > 2500 {
+						msg = msg[:2500]
+					}
+					o.Violation = fmt.Sprintf("%s [%s] free-running with -race (%s iterations): %v\n%s", sc.name, mode, iters, err, msg)
 				}
 				return o
 			})
